@@ -22,6 +22,7 @@ import (
 	"github.com/sirupsen/logrus"
 
 	"github.com/cossacklabs/acra/decryptor/base"
+	encryptor "github.com/cossacklabs/acra/encryptor/base"
 	"github.com/cossacklabs/acra/logging"
 	"github.com/cossacklabs/acra/sqlparser"
 )
@@ -106,6 +107,31 @@ func (manager *ArrayQueryObservableManager) AddQueryObserver(obs QueryObserver) 
 // RegisteredObserversCount return count of registered observers
 func (manager *ArrayQueryObservableManager) RegisteredObserversCount() int {
 	return len(manager.subscribers)
+}
+
+// querySettingsHolder is a query observer that collects column settings of the statement it analyses in OnQuery
+type querySettingsHolder interface {
+	GetQueryEncryptionSettings() []*encryptor.QueryDataItem
+	SetQueryEncryptionSettings([]*encryptor.QueryDataItem)
+}
+
+// QueryEncryptionSettings returns the column settings the observers collected for the statement analysed last
+func (manager *ArrayQueryObservableManager) QueryEncryptionSettings() []*encryptor.QueryDataItem {
+	for _, observer := range manager.subscribers {
+		if holder, ok := observer.(querySettingsHolder); ok {
+			return holder.GetQueryEncryptionSettings()
+		}
+	}
+	return nil
+}
+
+// SetQueryEncryptionSettings puts column settings collected for an earlier statement back in force
+func (manager *ArrayQueryObservableManager) SetQueryEncryptionSettings(items []*encryptor.QueryDataItem) {
+	for _, observer := range manager.subscribers {
+		if holder, ok := observer.(querySettingsHolder); ok {
+			holder.SetQueryEncryptionSettings(items)
+		}
+	}
 }
 
 // ID returns name of this QueryObserver.
